@@ -99,13 +99,14 @@ def oracle(ctx, rng, n_geom):
                 mass = float(np.sum(nsc * rr.params['area'] * x) / rr.bundle_params['area'])
                 info = dict(combo=key, n_ring=n_ring, Re=Re, dims=dims, fs=list(map(float, x)), grid=bool(grid))
                 if not np.all(np.isfinite(x)) or np.any(x <= 0):
-                    ctx.violation("c12-split-sign:" + fs, "flow split factors not positive and finite: %s" % x, **info)
+                    ctx.violation("c12-split-sign:%s:ff=%s" % (fs, ff), "flow split factors not positive and finite: %s (friction %s, "
+                                  "flow split %s)" % (x, ff, fs), **info)
                 elif abs(mass - 1.0) > 1e-4:
                     ctx.violation("c12-mass:" + fs, "flow-area-weighted mean of the flow split is %.8f, not one" % mass, **info)
                 if not (np.isfinite(p['ff']) and p['ff'] > 0):
                     ctx.violation("c12-friction:" + ff, "bundle friction factor %r is not positive and finite" % p['ff'], **info)
-                if not (np.all(np.isfinite(p['eddy'])) and np.all(np.asarray(p['eddy']) >= 0) and np.all(np.isfinite(p['swirl']))
-                        and np.all(np.asarray(p['swirl']) >= 0)):
+                if np.all(np.isfinite(x)) and not (np.all(np.isfinite(p['eddy'])) and np.all(np.asarray(p['eddy']) >= 0)
+                                                   and np.all(np.isfinite(p['swirl'])) and np.all(np.asarray(p['swirl']) >= 0)):
                     ctx.violation("c12-mixing:" + mix, "mixing parameters negative or not finite", **info)
                 # subchannel flows sum to the bundle flow
                 if abs(float(np.sum(rr.sc_mfr)) - rr.int_flow_rate) > 1e-4 * rr.int_flow_rate and np.all(np.isfinite(x)):
